@@ -3,6 +3,7 @@
 #![allow(dead_code)]
 
 mod c01;
+mod c08;
 mod c10;
 mod c11;
 mod cfgmut;
@@ -57,6 +58,7 @@ fn main() {
 		"C14" => dispatch!(defs::DefCheck { id: "C14", suts: defs::C14_SUTS }, args),
 		"C10" => dispatch!(c10::C10, args),
 		"C11" => dispatch!(c11::C11, args),
+		"C08" => dispatch!(c08::C08, args),
 		"C09" => dispatch!(sched::SchedCheck { id: "C09" }, args),
 		"C13" => dispatch!(sched::SchedCheck { id: "C13" }, args),
 		"selfcheck-determinism" => {
